@@ -3,9 +3,9 @@ from plans import step
 PLAN = dict(
     coq_targets=["Props/C06.vo"],
     steps=[
-        step("codegen-x86", "codegen-x86", "codegen-x86", 0, 0),
+        step("codegen-x86", "codegen-x86", "codegen-x86", 150, 6000, shards_thorough=12),
     ],
-    rule="linear AxCut programs obtained from every .sc program under /repo/examples, /repo/testsuite and corpus/fun through the real "
+    rule="linear AxCut programs obtained from n random well-typed Fun programs (harness gen_fun, default configuration mix: data/codata, recursion, label/goto, many live variables, extreme literals) and from every .sc program under /repo/examples, /repo/testsuite and corpus/fun through the real "
          "pipeline; for each: (i) model of the x86-64 code generator = instruction list of the real one (modulo COMMENT), "
          "(ii) the REAL instruction list is executed on the ISA model (undefined-value tracking, call havoc, alignment, encodability) "
          "for 4 argument tuples and compared with the AxCut linear machine; non-trivial = every program (tag nt); tags: spills, print, table, size",
